@@ -96,12 +96,18 @@ func ruleAngle(in, out float32, shortZTO bool) bool {
 // after encode+decode (out). shortZTO indexes out. It returns -1 when they
 // agree, else the index of the first disagreement and a reason.
 func compareEncoded(in, out []rec.Op, lowres bool, shortZTO map[int]bool) (int, string) {
+	return compareEncodedPer(in, out, func(int) bool { return lowres }, shortZTO)
+}
+
+// compareEncodedPer is compareEncoded with the resolution given per call
+// index (the Encoder latches its resolution flag at every StartPath).
+func compareEncodedPer(in, out []rec.Op, lowresAt func(i int) bool, shortZTO map[int]bool) (int, string) {
 	n := len(in)
 	if len(out) < n {
 		n = len(out)
 	}
 	for i := 0; i < n; i++ {
-		if why := compareOneEncoded(&in[i], &out[i], lowres, shortZTO[i]); why != "" {
+		if why := compareOneEncoded(&in[i], &out[i], lowresAt(i), shortZTO[i]); why != "" {
 			return i, why
 		}
 	}
